@@ -223,6 +223,9 @@ func (r *Run) Violation(fingerprint string, detail interface{}) {
 	r.nViolations++
 	h := sha256.Sum256([]byte(fingerprint))
 	dir := filepath.Join(Root, "replays")
+	if d := os.Getenv("VERIF_REPLAY_DIR"); d != "" {
+		dir = d
+	}
 	os.MkdirAll(dir, 0o755)
 	path := filepath.Join(dir, fmt.Sprintf("%s-%s.json", r.ID, hex.EncodeToString(h[:6])))
 	b, _ := json.MarshalIndent(map[string]interface{}{"property": r.ID, "fingerprint": fingerprint, "tier": r.tier, "case": detail}, "", " ")
@@ -282,8 +285,12 @@ func (r *Run) Finish() {
 	nv := r.nViolations
 	r.mu.Unlock()
 	b, _ := json.MarshalIndent(ev, "", " ")
-	os.MkdirAll(filepath.Join(Root, "evidence"), 0o755)
-	if err := os.WriteFile(filepath.Join(Root, "evidence", r.ID+".json"), append(b, '\n'), 0o644); err != nil {
+	edir := filepath.Join(Root, "evidence")
+	if d := os.Getenv("VERIF_EVIDENCE_DIR"); d != "" {
+		edir = d
+	}
+	os.MkdirAll(edir, 0o755)
+	if err := os.WriteFile(filepath.Join(edir, r.ID+".json"), append(b, '\n'), 0o644); err != nil {
 		r.Fatal(err)
 	}
 	if r.evaluations < 1 || len(r.distinct) < 2 {
